@@ -151,7 +151,7 @@ def dumpAttrs (s : AForest) (seen0 : List Nat) : List Nat × String := Id.run do
   for i in [0:s.f.n] do
     let r := s.na i
     let mut line := s!"{i} c{r.cls}"
-    for sl in [Slot.pos, Slot.ori, Slot.a0, Slot.a1, Slot.a2, Slot.a3] do
+    for sl in [Slot.pos, Slot.ori, Slot.a0, Slot.a1, Slot.a2, Slot.a3, Slot.kids] do
       match r.adr sl with
       | none => pure ()
       | some a =>
@@ -161,6 +161,7 @@ def dumpAttrs (s : AForest) (seen0 : List Nat) : List Nat × String := Id.run do
           | .vecs l => s!"v{l.length} " ++ " ".intercalate (l.map fmtV)
           | .rots l => s!"r{l.length} " ++ " ".intercalate (l.map fmtR)
           | .ints l => s!"i{l.length} " ++ " ".intercalate (l.map toString)
+          | .list => "l"
           | _ => "?"
         line := line ++ s!" [{sl.code}@{ix} {body}]"
     let sc := " ".intercalate (r.scal.map fun e => s!"{e.1}={e.2}")
